@@ -95,12 +95,14 @@ type pool struct {
 	// altItem: (edit, position, junk id) of the current alteration; grp: the open GROUP of alterations of one member of one
 	// envelope pair (same victim, same route): the member's characters go to Coq once per group
 	altItem string
-	grp     *group
+	// cv: the envelope built for the current case has a protected member that is 'skid' up to letter case
+	cv  bool
+	grp *group
 	// the honest envelopes of the current group's pair: every alteration of a group is applied to the SAME captured
 	// envelopes (packing again would give other random members)
-	hkey   string
-	he1    []byte
-	he2    []byte
+	hkey string
+	he1  []byte
+	he2  []byte
 }
 
 // group collects the alterations of one base64 member: one Coq case with the member's characters and a list of
@@ -443,6 +445,7 @@ func (p *pool) run(kind string, c Case, tr *hx.Trace) {
 	lowBitFirst = c.Mut.Kind == "flip" && c.Mut.Arg == "alt"
 	p.ownSender = 0
 	p.alt = "None"
+	p.cv = false
 	mutated, coqE, own, err := p.mutate(c, e1, e2)
 	lowBitFirst = false
 
@@ -570,7 +573,7 @@ func (p *pool) run(kind string, c Case, tr *hx.Trace) {
 		}
 
 		if p.grp == nil {
-			p.grp = &group{key: key, head: fmt.Sprintf("{| c_h1 := %s; c_h2 := %s; c_E := (fun w1 w2 => w1); c_alt := %s; c_alts := @@ALTS@@; c_up := %s; c_party := %s; c_att := None; c_obs := URej |}",
+			p.grp = &group{key: key, head: fmt.Sprintf("{| c_h1 := %s; c_h2 := %s; c_E := (fun w1 w2 => w1); c_alt := %s; c_alts := @@ALTS@@; c_up := %s; c_cv := false; c_party := %s; c_att := None; c_obs := URej |}",
 				p.coqHEnv(c.H1, 100000), p.coqHEnv(c.H2, 100100), p.alt, up, hx.CoqNList(p.partyKeys(c.Party)))}
 		} else {
 			tr.Put(p.grp.last) // earlier members of the group: direct oracle only, the group's case covers them
@@ -584,8 +587,8 @@ func (p *pool) run(kind string, c Case, tr *hx.Trace) {
 
 	p.flush(tr)
 
-	rec.Coq = fmt.Sprintf("{| c_h1 := %s; c_h2 := %s; c_E := (fun w1 w2 => %s); c_alt := None; c_alts := []; c_up := %s; c_party := %s; c_att := %s; c_obs := %s |}",
-		p.coqHEnv(c.H1, 100000), p.coqHEnv(c.H2, 100100), coqE, up, hx.CoqNList(p.partyKeys(c.Party)), r.Attempts, cu)
+	rec.Coq = fmt.Sprintf("{| c_h1 := %s; c_h2 := %s; c_E := (fun w1 w2 => %s); c_alt := None; c_alts := []; c_up := %s; c_cv := %v; c_party := %s; c_att := %s; c_obs := %s |}",
+		p.coqHEnv(c.H1, 100000), p.coqHEnv(c.H2, 100100), coqE, up, p.cv, hx.CoqNList(p.partyKeys(c.Party)), r.Attempts, cu)
 	tr.Put(rec)
 }
 
@@ -1053,11 +1056,19 @@ type advSpec struct {
 	DLabel  string // alg label of the decoy entries: es | 1pu
 	AlgProt string // several recipients: shared alg in the protected header: none | es | 1pu
 	Ser     string // compact | flattened | general (one recipient); general otherwise
+	// CV: one header member whose NAME is spelled in another letter case: "<member>:<upper|title>", member = a protected
+	// member (skid, alg, kid, epk, apu, enc, typ) or "r-<name>" for a per-recipient header member (kid, alg, epk, apu)
+	CV string
 }
 
 func (a advSpec) String() string {
-	return fmt.Sprintf("n=%d;pos=%d;skid=%s;apu=%s;apuprot=%v;vl=%s;dl=%s;algp=%s;ser=%s", a.N, a.Pos, a.Skid, a.Apu, a.ApuProt,
+	s := fmt.Sprintf("n=%d;pos=%d;skid=%s;apu=%s;apuprot=%v;vl=%s;dl=%s;algp=%s;ser=%s", a.N, a.Pos, a.Skid, a.Apu, a.ApuProt,
 		a.VLabel, a.DLabel, a.AlgProt, a.Ser)
+	if a.CV != "" {
+		s += ";cv=" + a.CV
+	}
+
+	return s
 }
 
 func parseAdvSpec(s string) advSpec {
@@ -1088,10 +1099,34 @@ func parseAdvSpec(s string) advSpec {
 			a.AlgProt = p[1]
 		case "ser":
 			a.Ser = p[1]
+		case "cv":
+			a.CV = p[1]
 		}
 	}
 
 	return a
+}
+
+// respell gives a member name another letter case.
+func respell(name, how string) string {
+	if how == "title" {
+		return strings.ToUpper(name[:1]) + name[1:]
+	}
+
+	return strings.ToUpper(name)
+}
+
+// renameMember spells the member's name differently (nothing happens if the member is absent).
+func renameMember(m map[string]interface{}, name, how string) bool {
+	v, ok := m[name]
+	if !ok {
+		return false
+	}
+
+	delete(m, name)
+	m[respell(name, how)] = v
+
+	return true
 }
 
 func epkJWK(pk *cryptoapi.PublicKey) (json.RawMessage, error) {
@@ -1171,6 +1206,11 @@ func (p *pool) buildAdv(c Case) ([]byte, string, bool, error) {
 		d++
 	}
 
+	cvMember, cvHow := "", ""
+	if i := strings.Index(a.CV, ":"); i > 0 {
+		cvMember, cvHow = a.CV[:i], a.CV[i+1:]
+	}
+
 	cek := make([]byte, cekSize(h.Enc))
 	_, _ = rand.Read(cek)
 
@@ -1244,6 +1284,11 @@ func (p *pool) buildAdv(c Case) ([]byte, string, bool, error) {
 		}
 
 		hm := map[string]interface{}{"kid": pk.KID, "alg": algStr, "epk": json.RawMessage(epk), "apu": b64(wk.APU)}
+		if strings.HasPrefix(cvMember, "r-") {
+			// per-recipient headers are decoded into a struct by encoding/json: the name's letter case does not matter
+			renameMember(hm, cvMember[2:], cvHow)
+		}
+
 		hb, _ := json.Marshal(hm)
 		recs = append(recs, env.RawRec{Header: hb, EncryptedKey: b64(wk.EncryptedCEK)})
 		recsCoq = append(recsCoq, fmt.Sprintf("mkrcp (Some (mkrhdr %s %s (Some (Pub %d)) (Some %s) None)) %s", kidCoq, algCoq, e, apuTerm, ekCoq))
@@ -1258,6 +1303,27 @@ func (p *pool) buildAdv(c Case) ([]byte, string, bool, error) {
 		if a.ApuProt {
 			prot["apu"] = b64([]byte(skidStr))
 			pApu = "(Some (t_kref " + skidCoq + "))"
+		}
+	}
+
+	// a protected member spelled in another letter case: the header MAP of jose has no such member
+	pEnc := "(Some " + h.Enc + ")"
+
+	if cvMember != "" && !strings.HasPrefix(cvMember, "r-") && renameMember(prot, cvMember, cvHow) {
+		switch cvMember {
+		case "skid":
+			pSkid = "None"
+			p.cv = true
+		case "alg":
+			pAlg = "None"
+		case "kid":
+			pKid = "None"
+		case "epk":
+			pEpk = "None"
+		case "apu":
+			pApu = "None"
+		case "enc":
+			pEnc = "None"
 		}
 	}
 
@@ -1316,8 +1382,8 @@ func (p *pool) buildAdv(c Case) ([]byte, string, bool, error) {
 		out = raw.Bytes()
 	}
 
-	coq := fmt.Sprintf("WJwe (reenc_jwe %s %d (mkjwe (Some (mkphdr (Some %s) %s %s %s %s %s None 0)) %s (Tup []) (Bytes 77) (Junk 0) (Junk 0)))",
-		cekCoq, forged, h.Enc, pSkid, pAlg, pKid, pEpk, pApu, recsCoq2(recsCoq))
+	coq := fmt.Sprintf("WJwe (reenc_jwe %s %d (mkjwe (Some (mkphdr %s %s %s %s %s %s None 0)) %s (Tup []) (Bytes 77) (Junk 0) (Junk 0)))",
+		cekCoq, forged, pEnc, pSkid, pAlg, pKid, pEpk, pApu, recsCoq2(recsCoq))
 
 	return out, coq, true, nil
 }
@@ -2428,6 +2494,47 @@ func (p *pool) genBuilt(tr *hx.Trace, rng *hx.Rng, thorough bool) {
 					}
 				}
 			}
+		}
+	}
+
+	// member NAMES in another letter case (jose's protected-header map is case-sensitive, every struct decoded by
+	// encoding/json — the packager's header stub, per-recipient headers — is not): every protected member and every
+	// per-recipient member, upper case and title case
+	var cvs []string
+
+	for _, how := range []string{"upper", "title"} {
+		for _, m := range []string{"skid", "alg", "kid", "epk", "apu", "enc", "typ", "r-kid", "r-alg", "r-epk", "r-apu"} {
+			cvs = append(cvs, m+":"+how)
+		}
+	}
+
+	base := len(all)
+
+	for i := 0; i < base; i++ {
+		a := all[i]
+
+		switch {
+		case a.N == 1:
+			for k := 0; k < 2; k++ {
+				a.CV = cvs[(2*i+k*5)%len(cvs)]
+				if !strings.HasPrefix(a.CV, "r-") && !(strings.HasPrefix(a.CV, "skid") && a.Skid != "prot") {
+					all = append(all, a)
+				}
+			}
+
+			if a.Skid == "prot" {
+				for _, how := range []string{"upper", "title"} {
+					a.CV = "skid:" + how
+					all = append(all, a)
+				}
+			}
+		case i%7 == 3:
+			a.CV = cvs[(i/7)%len(cvs)]
+			if strings.HasPrefix(a.CV, "kid") || strings.HasPrefix(a.CV, "epk") || (strings.HasPrefix(a.CV, "skid") && a.Skid != "prot") {
+				a.CV = "r-" + a.CV // members a multi-recipient protected header does not have
+			}
+
+			all = append(all, a)
 		}
 	}
 
